@@ -103,7 +103,29 @@ async fn run_fetch(beh: &[Value], u: &Universe, p: &Params, store_path: &str, re
     settle().await;
 
     let mut conns: Vec<(std::net::SocketAddr, Framed<tokio::io::DuplexStream, LengthDelimitedCodec>)> = Vec::new();
-    for act in beh {
+    // the schedule, then a quiet suffix of 100 s in which nothing is answered: whatever is still outstanding must be re-requested elsewhere.
+    // Time never jumps over a timer deadline (as in Fetch.tla): the suffix advances from deadline to deadline of the two retry timers.
+    let mut moves: Vec<Value> = beh.to_vec();
+    {
+        let (mut bleft, mut mleft) = (5000u64, 1000u64);
+        let mut pass = |ms: u64, bleft: &mut u64, mleft: &mut u64| {
+            *bleft = if ms >= *bleft { 5000 } else { *bleft - ms };
+            *mleft = if ms >= *mleft { 1000 } else { *mleft - ms };
+        };
+        for act in beh.iter() {
+            if act["a"] == "advance" {
+                pass(act["ms"].as_u64().unwrap(), &mut bleft, &mut mleft);
+            }
+        }
+        let mut total = 0u64;
+        while total < 100_000 {
+            let step = bleft.min(mleft);
+            moves.push(json!({"a":"advance","ms":step}));
+            pass(step, &mut bleft, &mut mleft);
+            total += step;
+        }
+    }
+    for act in moves.iter() {
         let a = act["a"].as_str().unwrap();
         let us = |k: &str| act[k].as_u64().unwrap() as usize;
         let mut res = "done".to_string();
